@@ -75,7 +75,20 @@ def run_case(case, ctx):
         opts.update(dtype_ids='uint16', far_ids=0, nt=300, ns=900, nc=6, clusters='curated', curation_ops=6)
     if case['seed'][-1] % 25 == 9:
         opts.update(nt=40, ns=240, nc=[13, 20][case['seed'][-1] % 2], clusters='curated', far_ids=0, dtype_ids='int32')
+    if case['seed'][-1] % 50 == 10:
+        # a cluster of 24000 spikes merged from two templates with different channel neighbourhoods: the one that fires early
+        # (drift) is not the one that contributes most spikes overall
+        opts.update(nt=3, ns=24000, nc=20, clusters='same', far_ids=0, dtype_ids='int32', spikeless='none', shanks=0, flat_template=False)
     spec = random_spec(rng, **opts)
+    if case['seed'][-1] % 50 == 10:
+        st_ = np.ones(24000, dtype=spec.spike_templates.dtype)
+        st_[:7000] = 0
+        st_[7000:7300:3] = 2
+        st_[-40:] = 2
+        spec.spike_templates = st_
+        sc_ = st_.copy()
+        sc_[st_ < 2] = 5
+        spec.spike_clusters = sc_
     if case['seed'][-1] % 25 == 9:
         # one big cluster merged from 35 of 40 templates (a 'noise' cluster)
         sc_ = spec.clusters.copy()
@@ -95,14 +108,22 @@ def run_case(case, ctx):
     mm, nan_idx = rt.merge_map(spec)
     multi = [c for c, v in mm.items() if len(v) > 1]
     nontriv = (curated and multi and nan_idx) or (not curated and opts['spikeless'] != 'none')
-    desc = {'seed': case['seed'], 'opts': opts, 'spike_templates': st.tolist(), 'spike_clusters': sc.tolist()}
+    desc = {'seed': case['seed'], 'opts': opts, 'spike_templates': st.tolist() if len(st) < 3000 else 'see seed', 'spike_clusters': sc.tolist() if len(sc) < 3000 else 'see seed'}
     ctx.count(1, key=hkey(tuple(case['seed'])), nontrivial=bool(nontriv),
               cell=('curated' if curated else 'uncurated', 'spikeless_' + opts['spikeless'], 'nc%d' % opts['nc']))
     ctx.sample({'opts': opts, 'merge_map': {str(k): v for k, v in mm.items()}, 'nan_idx': nan_idx}, every=29)
     f = {'curated': bool(curated), 'spikeless': opts['spikeless']}
     d = scratch_dir('c08_')
     try:
-        r = call(load_model, spec.write(d))
+        params_ = spec.write(d)
+        import os
+        if case['seed'][-1] % 4 == 1:
+            # the dataset was restored from an archive: every file carries the same modification time (and the cluster and
+            # template files have the same size anyway)
+            for fn_ in os.listdir(d):
+                if os.path.isfile(os.path.join(d, fn_)):
+                    os.utime(os.path.join(d, fn_), (1.6e9, 1.6e9))
+        r = call(load_model, params_)
         if not r.ok:
             ctx.violation('raised', desc, 'load_model raised %r' % r.exc, dict(f, exc=r.exc_name), tb=r.tb)
             return
